@@ -28,7 +28,7 @@ FAMILIES = ["polynomial", "rational", "power", "trig", "mixed", "constant"]
 def plan(tier, seed):
     n = 160 if tier == "quick" else 1600
     cases = [{"kind": "generated", "family": FAMILIES[k % len(FAMILIES)], "n_idx": (k // 6) % 5,
-              "depth": 1 + (k // 30) % 3, "shadow": (k % 7 == 3), "leak": (k % 5 == 2), "k": k, "cost": 0.3 + 0.3 * ((k // 30) % 3)} for k in range(n)]
+              "depth": 1 + (k // 30) % 3, "shadow": (k % 7 == 3), "leak": (k % 5 == 2), "pool_container": ["tuple", "list", "generator", "tuple", "iterator", "map"][k % 6], "k": k, "cost": 0.3 + 0.3 * ((k // 30) % 3)} for k in range(n)]
     for name in ("jpsi_p_pbar_pi0__n1440.hel", "lambdac_p_km_pip__l1520.hel", "jpsi_gamma_pi0_pi0__f0.hel",
                  "tau_nu_pim_pi0__rho.hel", "jpsi_k0_sigmap_pbar__sigma1750.hel", "d0_km_pip_pip_pim__kst_rho.hel"):
         for align in ("none", "axisangle", "dpd"):
@@ -241,7 +241,23 @@ def build_generated(case, ctx, rng):
         if case.get("leak") and level > 0 and used and used[0] not in idx_syms:
             # the index of a deeper sum also occurs *free* at this level (bound inside, free outside)
             body = body * (used[0] + 2) + used[0]
-        inner = PoolSum(body, *pools)
+        mode = case.get("pool_container", "tuple")
+        if mode == "generator":
+            given = [(s_, (v_ for v_ in vals_)) for s_, vals_ in pools]       # one-shot iterables are valid Iterable[Basic]
+        elif mode == "iterator":
+            given = [(s_, iter(list(vals_))) for s_, vals_ in pools]
+        elif mode == "map":
+            given = [(s_, map(sp.sympify, list(vals_))) for s_, vals_ in pools]
+        elif mode == "list":
+            given = [(s_, list(vals_)) for s_, vals_ in pools]
+        else:
+            given = pools
+        inner = PoolSum(body, *given)
+        if [tuple(v_) for _, v_ in _indices_of(inner)] != [tuple(v_) for _, v_ in pools]:
+            rec_ = ctx.get("rec")
+            if rec_ is not None:
+                rec_.check(False, "pool_container", f"PoolSum built from pools given as {mode} stores {[tuple(v_) for _, v_ in _indices_of(inner)]}, "
+                           f"not the values {[tuple(v_) for _, v_ in pools]}", {"poolsum": str(inner)}, {"family": case["family"], "pool_container": mode})
         used += [s for s in idx_syms if s not in used]
     return inner, shapes
 
@@ -298,6 +314,7 @@ def run_case(case, rec, ctx):
     if case["kind"] == "twins":
         return _run_twins(case, rec, ctx, rng)
     ctx["judge_calls"] = False
+    ctx["rec"] = rec
     P, shapes = build_generated(case, ctx, rng)
     a, b, c = ctx["free"]
     idx_all = [s for s, _ in _indices_of(P)]
